@@ -340,3 +340,9 @@ package phttp
 //@ ensures [a-connection-or-an-error] imp(err != nil, conn == nil)
 //@ at call req.Write assert [a-connect-request-for-the-address-the-transport-asked-for] req.Method == "CONNECT" && req.Host == address
 //@ at call http.ReadResponse assert [answer-to-that-connect-request] arg(req) == req
+
+// The dial function of the connect gun is the literal under contract above, closed over the given target, option and dialer.
+//@ func newConnectDialFunc
+//@ props C09
+//@ modifies nothing
+//@ ensures result != nil
